@@ -8,6 +8,7 @@ from pbt import engine, gen
 from pbt.engine import Check, Violation, B, is_exc
 from pbt import oracle_num as on
 from pbt.oracle_num import Unjudgeable
+from pbt.valuecheck import ValueCheck
 
 
 def leaf_sig(d, out):
@@ -48,7 +49,7 @@ def leaf_sig(d, out):
     return out
 
 
-class C07(Check):
+class C07(ValueCheck):
     pid = "C07"
     rule = ("recipes over add sub mul div neg pow sqrt cbrt with exact/floating numbers, pi, E, I, symbols "
             "x,y,z (Hypothesis recursive trees, <= 14 leaves), each evaluated at 3 generated generic complex "
@@ -87,59 +88,17 @@ class C07(Check):
 
     def judge(self, case):
         rec = case["e"]
-        # reference first: recipes with an astronomically large/small intermediate power are
-        # neither judged nor sent to the library (resource exhaustion is not a property violation)
-        refs = []
-        hasf = on.has_float(rec)
-        mag = 100 if hasf else 300
-        for env in case["envs"]:
-            try:
-                refs.append(on.stable_value(rec, env, cut_guard=True, mag=mag))
-            except Unjudgeable as u:
-                refs.append(u)
-        if any(isinstance(r, Unjudgeable) and r.reason.startswith("overflow") for r in refs) \
-                or on.resource_blocked(rec, case["envs"][0], mag):
+        refs, blocked = self.references(rec, case["envs"])
+        if blocked:
             self.skip("ref:overflow")
             return
         res = self.run([rec])[0]
         if is_exc(res):
-            if res["exc"] == "VerifAssertFailure":
-                self.skip("assert_seen")
-            else:
-                self.skip("declined:" + res["exc"])
+            self.skip("assert_seen" if res["exc"] == "VerifAssertFailure" else "declined:" + res["exc"])
             return
         got = B(res)
-        judged = 0
-        for env, ref in zip(case["envs"], refs):
-            self.count()
-            if isinstance(ref, Unjudgeable):
-                self.skip("ref:" + ref.reason.split(":")[0])
-                # a zoo/nan result is fine when the reference has a pole; nothing to compare
-                continue
-            if got[0] in ("Infty", "NaN"):
-                raise Violation("result is %s but the recipe has the finite value %s at %s" % (got, ref, env),
-                                {"recipe": rec, "result": got, "env": env})
-            try:
-                val = on.stable_value(got, env, cut_guard=True)
-            except Unjudgeable as u:
-                if u.reason.startswith(("pole", "non_finite")):
-                    raise Violation("result %s is singular (%s) where the recipe has the finite value %s at %s"
-                                    % (got, u.reason, ref, env), {"recipe": rec, "result": got, "env": env})
-                self.skip("res:" + u.reason.split(":")[0])
-                continue
-            try:
-                if hasf:
-                    kap = on.float_kappa(rec, env, cut_guard=True, mag=mag)
-                    tol = float(64 * 2.0 ** -53 * kap)
-                else:
-                    tol = 1e-25
-            except Unjudgeable as u:
-                self.skip("kappa:" + u.reason.split(":")[0])
-                continue
-            if not on.close(ref, val, tol, 1e-30 if not hasf else 1e-300):
-                raise Violation("value mismatch at %s: recipe=%s result=%s (tol %g); result dump %s"
-                                % (env, ref, val, tol, got), {"recipe": rec, "result": got, "env": env})
-            judged += 1
+        hasf = on.has_float(rec)
+        judged = self.compare(rec, got, case["envs"], refs)
         if judged:
             self.cls("float" if hasf else "exact")
             if sorted(leaf_sig(rec, [])) != sorted(leaf_sig(got, [])):
